@@ -67,7 +67,7 @@ func (g G) drawAttrQ(label string, w *WorldCfg, sp int) *MsgSpec {
 
 // deviate applies one deviation from conformance out of the lists in the statements of C06 / C12 / C13.
 func (g G) deviate(label string, m *MsgSpec) {
-	opts := []string{"issuer-absent", "issuer-empty", "issuer-other", "issuer-rogue", "issuer-lookalike", "issuer-case", "issuer-space",
+	opts := []string{"dest-other-host", "dest-other-host", "issuer-absent", "issuer-empty", "issuer-other", "issuer-rogue", "issuer-lookalike", "issuer-case", "issuer-space",
 		"dest-other", "dest-foreign", "dest-case", "dest-upper", "dest-slash", "dest-scheme", "dest-empty",
 		"noid", "emptyid", "noversion", "emptyversion", "version11", "timelit", "window-past", "window-future", "encoding", "sigalg-nosig", "empty-request",
 		"rogue-sp", "struct"}
@@ -89,6 +89,8 @@ func (g G) deviate(label string, m *MsgSpec) {
 		m.IssuerMode = "lookalike-case"
 	case "issuer-space":
 		m.IssuerMode = "lookalike-space"
+	case "dest-other-host":
+		m.DestMode = "other-host"
 	case "dest-other":
 		m.DestMode = "other-endpoint"
 	case "dest-foreign":
@@ -177,7 +179,7 @@ func (g G) tamper(label string, m *MsgSpec) {
 		case "post", "soap":
 			ops = append(common, "strip_sig", "drop_keyinfo", "foreign_keyinfo", "sigvalue_flip", "digest_flip", "empty_sigvalue", "post_deflate", "wrap", "sigvalue_flip")
 		default:
-			ops = append(common, "strip_sigparams", "sig_flip", "swap_sigalg", "foreign_sig", "dup_param", "truncate_query", "move-post", "empty-sig", "sig_flip", "dsa_forge")
+			ops = append(common, "strip_sigparams", "sig_flip", "swap_sigalg", "foreign_sig", "dup_param", "truncate_query", "move-post", "empty-sig", "sig_flip", "dsa_forge", "body-override", "body-override")
 		}
 		switch op := g.pick(lab+".op", ops...); op {
 		case "field-acs":
@@ -242,6 +244,8 @@ func (g G) tamper(label string, m *MsgSpec) {
 			m.Tamper = append(m.Tamper, Tamper{Op: "dsa_forge", A: g.intn(lab+".dsa", 2)})
 		case "move-post":
 			m.Method = "POST-move"
+		case "body-override":
+			m.Method = "POST-override"
 		case "empty-sig":
 			m.Tamper = append(m.Tamper, Tamper{Op: "empty_param", S: "Signature"})
 		}
